@@ -73,3 +73,55 @@ Example rename_escape_refused :
   run_op [Name 1%positive] {| op_name := "Rename"; op_args := [Checked; Checked] |}
          [[Name 2%positive]; [DotDot; DotDot; Name 3%positive]] = None.
 Proof. reflexivity. Qed.
+
+(* ---- import statements and the module argument (Chroot/Import.v) ---- *)
+Require Import Verif.Chroot.Import.
+
+Lemma find_op_in name o : find_op name ops = Some o -> In o ops.
+Proof. unfold find_op. intros H. apply find_some in H. exact (proj1 H). Qed.
+
+(* the wrapper of the current source has an Open operation with exactly one (checked) path argument *)
+Lemma open_op_present : exists o, find_op "Open" ops = Some o /\ length (op_args o) = 1.
+Proof. eexists. split; reflexivity. Qed.
+
+(* whatever an import statement (relative or rooted) or the module argument spells, from whichever directory
+   inside or outside the root, the inner filesystem is only ever asked for a path under the root *)
+Theorem import_confined root base rooted sp p :
+  import_open ops root base rooted sp = Some p -> exists s, p = clean_abs root ++ s.
+Proof.
+  unfold import_open. destruct (find_op "Open" ops) as [o|] eqn:Ho; [|discriminate].
+  destruct (run_op root o [import_name base rooted sp]) as [ps|] eqn:Hr; [|discriminate].
+  destruct ps as [|q [|q' ps']]; try discriminate. intros [= <-].
+  pose proof (all_ops_confined o root _ _ (find_op_in _ _ Ho) Hr) as H. inversion H; assumption.
+Qed.
+
+(* an import that stays inside the root is served, from the joined path ... *)
+Theorem import_inside_served root base rooted sp s :
+  join root (import_name base rooted sp) = clean_abs root ++ s ->
+  import_open ops root base rooted sp = Some (clean_abs root ++ s).
+Proof.
+  intros Hj. unfold import_open. destruct open_op_present as (o & Ho & Hl). rewrite Ho.
+  rewrite (inside_keeps_working o root [import_name base rooted sp] (find_op_in _ _ Ho)).
+  - cbn [map]. rewrite Hj. reflexivity.
+  - cbn [length]. symmetry. exact Hl.
+  - constructor; [exists s; exact Hj|constructor].
+Qed.
+
+(* ... and two spellings of the same file (e.g. "a/../b/x", "./b//x", "/b/x" from the root) open the same file *)
+Theorem import_same_file root base rooted sp base' rooted' sp' :
+  join root (import_name base rooted sp) = join root (import_name base' rooted' sp') ->
+  import_open ops root base rooted sp = import_open ops root base' rooted' sp'.
+Proof.
+  intros Hj. unfold import_open. destruct (find_op "Open" ops) as [o|] eqn:Ho; [|reflexivity].
+  rewrite (same_file_however_spelled o root [import_name base rooted sp] [import_name base' rooted' sp']); auto.
+  - cbn [map]. rewrite Hj. reflexivity.
+  - apply (find_op_in _ _ Ho).
+Qed.
+
+Example import_dotdot_refused :
+  import_open ops [Name 5; Name 6]%positive [Name 1%positive] false [DotDot; DotDot; DotDot; Name 7%positive] = None.
+Proof. reflexivity. Qed.
+Example import_respelled_served :
+  import_open ops [Name 5; Name 6]%positive [Name 1%positive] false [DotDot; Name 10%positive; Empty; Dot; Name 7%positive]
+  = Some [5; 6; 10; 7]%positive.
+Proof. reflexivity. Qed.
